@@ -1,0 +1,15 @@
+//go:build verif
+
+package mapper
+
+// Contracts checked by /verif's govc.  Comments only; build tag "verif".
+
+//@ unit mapper
+//@
+//@ // ===== C08: two aggregate/sub-select targets share one source only when their filters are the same.
+//@ // Equal conditions have the same number of entries, and every entry of the first was looked for in
+//@ // the second (the loop over the first map is left early only with the answer false).
+//@ func deepEqualConditions -> (r)
+//@   ensures r ==> old(len(x) == len(y))
+//@   ensures r && old(len(x)) != 0 ==> exhausted(1)
+//@   tags C08
